@@ -84,7 +84,6 @@ def _pre(c):
     name = TOpt(TStr).some(c.h.get("HashFileDB.hash_name", c.src))
     Q = c.obj_ids.union(c.missing_ids).union(dest_objs)
     return And(
-        dirs_axiom(c.obj_ids),  # definition of the spec set dirs_of(obj_ids)
         c.src != c.dest,
         Implies(c.cache_odb.is_some, And(c.cache_odb.val != c.dest)),
         all_h(lambda h: Implies(c.obj_ids.contains(h), And(h.name == name, h.value.is_some, h.value.val.length() > 0))),
@@ -194,6 +193,7 @@ contract(
                 cache_odb=TOpt(HashFileDB)),
     returns=HSet,
     requires=_pre,
+    entry_assume=lambda c: dirs_axiom(c.obj_ids),  # definition of the spec set dirs_of(obj_ids)
     modifies=lambda c: [("HashFileDB.objs", c.dest), ("ObjectDBIndexBase.held", None), ("ObjectDBIndexBase.dirs", None)],
     locals=dict(dir_ids=HSet, file_ids=HSet, failed_ids=HSet, succeeded_dir_objs=TList(Tree)),
     invariants={0: _loop0_inv, 1: _loop1_inv, 2: _loop2_inv},
